@@ -174,6 +174,25 @@ def run_property(ctx, prop, unary, binary, ternary, rule):
         cases += grid_cases(grid, vals, tern, 3, rng, sample=3000)
     else:
         cases += grid_cases(grid, vals, tern, 3, rng, sample=60000)
+    # every triple that contains a pair of numbers with the same binary32 image (computed by the specification),
+    # in every position: where chains through converted operands and mixed representations go wrong
+    seen_t = set()
+    for (a, b) in g.get("confusable", []):
+        a, b = a - 1, b - 1
+        if vals[a] is None or vals[b] is None:
+            continue
+        for k in range(len(grid)):
+            if vals[k] is None:
+                continue
+            for t in ((k, a, b), (k, b, a), (a, k, b), (b, k, a), (a, b, k), (b, a, k)):
+                seen_t.add(t)
+    conf = sorted(seen_t)
+    if tier == "quick" and len(conf) * len(tern) > 40000:
+        conf = rng.sample(conf, 40000 // max(1, len(tern)))
+    for op in tern:
+        for t in conf:
+            srcs = [grid[i]["src"] for i in t]
+            cases.append({"op": op, "srcs": srcs, "args": [vals[i] for i in t], "text": "(%s %s)" % (op, " ".join(srcs))})
     bad, _ = validate_cases(ctx, cases, "grid-cases")
     report(ctx, prop, bad, "grid")
     for c in cases:
